@@ -1687,6 +1687,49 @@ func (x *tr) forStmt(ind int, s *ast.ForStmt) {
 	x.bad(s, "for loop of an unsupported shape")
 }
 
+// mergeNestedIfs: `if A { if B { S } }` (no else on either, the inner `if` the only statement of the outer body and without an init
+// statement) is `if A && B { S }` (Go's && evaluates B only when A holds): rewritten to that form before translation, so that the two
+// spellings translate alike
+func mergeNestedIfs(b *ast.BlockStmt) {
+	ast.Inspect(b, func(n ast.Node) bool {
+		outer, ok := n.(*ast.IfStmt)
+		if !ok {
+			return true
+		}
+		for outer.Else == nil && len(outer.Body.List) == 1 {
+			inner, ok := outer.Body.List[0].(*ast.IfStmt)
+			if !ok || inner.Else != nil || inner.Init != nil {
+				break
+			}
+			outer.Cond = &ast.BinaryExpr{X: &ast.ParenExpr{X: outer.Cond}, Op: token.LAND, Y: &ast.ParenExpr{X: inner.Cond}, OpPos: inner.Pos()}
+			outer.Body = inner.Body
+		}
+		// one association for a chain of &&: ((c1 && c2) && c3) && …  (&& is associative, evaluation order is left to right either way)
+		if cs := conjuncts(outer.Cond); len(cs) > 2 {
+			c := cs[0]
+			for _, d := range cs[1:] {
+				c = &ast.BinaryExpr{X: c, Op: token.LAND, Y: d, OpPos: d.Pos()}
+			}
+			outer.Cond = c
+		}
+		return true
+	})
+}
+
+func conjuncts(e ast.Expr) []ast.Expr {
+	for {
+		p, ok := e.(*ast.ParenExpr)
+		if !ok {
+			break
+		}
+		e = p.X
+	}
+	if b, ok := e.(*ast.BinaryExpr); ok && b.Op == token.LAND {
+		return append(conjuncts(b.X), conjuncts(b.Y)...)
+	}
+	return []ast.Expr{e}
+}
+
 // indexLoopOver: is the loop `for i := 0; i < len(xs); i++` for an identifier xs?  (the caller has checked init literal, post and `<`)
 func indexLoopOver(s *ast.ForStmt, el string, lit *ast.BasicLit, be *ast.BinaryExpr) *ast.Ident {
 	if lit.Value != "0" {
@@ -2019,6 +2062,7 @@ func (x *tr) function(name string) (text string, err string) {
 		}
 	}()
 	fi := x.fns[name]
+	mergeNestedIfs(fi.decl.Body)
 	x.cur = name
 	x.sg = sigs[name]
 	x.scopes = nil
